@@ -558,3 +558,59 @@ def autosave_callers(ctx) -> None:
            f"all {len(clock)} stores to last_save_time assign time.time()" if not badc and clock else
            f"last_save_time is set in {badc[0] if badc else 'no place'}: the autosave throttle is bypassed and a snapshot is "
            f"forced at a point the driver did not choose")
+
+
+def phase_shortcut(ctx) -> None:
+    """The emu-sv generators have a fast path that ignores the drive phases (Ω/2·σˣ instead of Ω/2·(cosφ σˣ + sinφ σʸ)).
+    It is the same operator only when every phase is exactly zero, so the flag that selects it must be `phis.any()` (some
+    phase non-zero ⇒ complex path) and the phase-free code must sit on the flag-false side."""
+    from ..interp import field_defs
+    prog = ctx.prog
+    for cq, method, real_call, complex_call in (
+            ("emu_sv.hamiltonian.RydbergHamiltonian", "__mul__", "_apply_sigma_operators_real", "_apply_sigma_operators_complex"),
+            ("emu_sv.lindblad_operator.RydbergLindbladian", "_local_terms_hamiltonian", None, None)):
+        K = prog.cls(cq)
+        fd = field_defs(prog, K)
+        defs = [strip_typed(v) for v, ev in fd.get("complex", []) if ev is not None]
+        phis = ("attr", SELF, "phis")
+        phis_terms = (phis,) + tuple(strip_typed(v) for v, _ in fd.get("phis", []))
+
+        def nonzero_test(t):
+            if t[0] == "mcall" and t[2] == "any" and not t[3] and strip_typed(t[1]) in phis_terms:
+                return True
+            if t[0] == "call" and t[1] in ("torch.any", "any") and len(t[2]) == 1:
+                a = strip_typed(t[2][0])
+                return a in phis_terms or (a[0] == "cmp" and a[1] == "!=" and strip_typed(a[2]) in phis_terms and
+                                           strip_typed(a[3]) in (("const", 0), ("const", 0.0)))
+            if t[0] == "call" and t[1] == "bool" and len(t[2]) == 1:
+                return nonzero_test(strip_typed(t[2][0]))
+            return False
+        okf = len(defs) == 1 and nonzero_test(defs[0])
+        ctx.ob("PHASE-shortcut", f"{K.name}.complex", K.methods["__init__"].loc(), okf,
+               "complex ⇔ some drive phase is non-zero (phis.any())" if okf else
+               f"{K.name}.complex = {[show(d)[:60] for d in defs]} is not `phis.any()`: phases for which it is false although "
+               f"they are not zero (e.g. φ = π) are emulated with the phase-free generator Ω/2·σˣ")
+        f = K.methods[method]
+        it = Interp(prog, K, inline=lambda c, r, d: False)
+        seen = {}
+        for p in it.run(f):
+            if p.status != "return":
+                continue
+            flag = None
+            for c, t in p.cond_log:
+                if strip_typed(c) == ("attr", SELF, "complex"):
+                    flag = t
+            if real_call is not None:
+                calls = [e.name.split(".")[-1] for e in p.events if e.kind == "call"]
+                uses_phase = complex_call in calls
+                phase_free = real_call in calls
+            else:
+                s = show(p.retval)
+                uses_phase = "cos(" in s and "sin(" in s and "phis" in s
+                phase_free = not uses_phase and "omegas" in s
+            seen[flag] = (uses_phase, phase_free)
+        ok = seen.get(True) == (True, False) and seen.get(False) == (False, True)
+        ctx.ob("PHASE-shortcut", f"{K.name}.{method}", f.loc(), ok,
+               "complex → generator with cosφ/sinφ; not complex → phase-free generator" if ok else
+               f"{K.name}.{method} maps the flag to (uses phases, phase-free) as {seen}: the phase-free generator runs for "
+               f"non-zero phases or the other way round")
